@@ -27,8 +27,8 @@ from fractions import Fraction
 
 from harness import kit, consts
 
-KINDS = ["ok", "nan", "pinf", "ninf", "zero", "huge", "tiny", "big", "small", "nan1", "inf1"]
-MODERATE = {"ok", "zero", "big", "small"}
+KINDS = ["ok", "nan", "pinf", "ninf", "zero", "huge", "tiny", "big", "small", "nan1", "inf1", "row0zero"]
+MODERATE = {"ok", "zero", "big", "small", "row0zero", "rank1"}
 FAULTS = [k for k in KINDS if k != "ok"]
 THRS = [0.0, 1e-30, 0.1, 1e30]
 EPSS = [0.0, 1e-6, 1e-12]
@@ -41,6 +41,17 @@ SHAPES = [
     {"shapes": [[1], [3, 2]], "block": 4},         # (1,) leaf: 1x1 statistic
 ]
 GRAFTS = ["SGD", "RMSPROP_NORMALIZED", "ADAGRAD", "RMSPROP"]
+# root paths other than the plain Newton / eigh root: LOBPCG-deflated Newton root (every statistic must be larger than 5k),
+# low-rank packed roots (compression_rank r: statistics of dimension > |r|+2 are packed into dim x (|r|+2), smaller ones take the
+# full root), frequent directions (sketch updated from the previously stored packed preconditioner)
+VARIANTS = [
+    {"variant": {"lobpcg": 1}, "shapes": [[6, 7], [8]], "block": 8},
+    {"variant": {"rank": 1}, "shapes": [[6, 7], [6, 3]], "block": 8},
+    {"variant": {"rank": -1}, "shapes": [[7, 6], [4]], "block": 8},
+    {"variant": {"rank": 2}, "shapes": [[6, 5], [7]], "block": 8},
+    {"variant": {"fd": 1}, "shapes": [[6, 7], [6, 3]], "block": 8},
+    {"variant": {"fd": 2}, "shapes": [[6, 5], [7]], "block": 8},
+]
 
 
 # ============================================================================ case generation
@@ -102,6 +113,38 @@ def gen_tasks(tier, seed):
         tasks.append({"kind": "ds", "mode": mode, "thr": thr, "eps": eps, "eigh": eigh, "pi": pi, "T": T,
                       "shapes": shp["shapes"], "block": shp["block"], "graft": graft,
                       "ndev": [2, 3, 8][cid % 3] if mode == "pmapq" else None,
+                      "npjit": [1, 2, 3][cid % 3] if mode == "sharded" else None,
+                      "defaults": False, "histories": hs})
+    # ---- the other root paths (LOBPCG, low-rank, frequent directions): same observables
+    vgrid = []
+    if quick:
+        for mi, mode in enumerate(MODES):
+            for vi, v in enumerate(VARIANTS):
+                k = mi * len(VARIANTS) + vi + seed
+                vgrid.append((mode, THRS[(k + vi) % 4] if (k % 3) else 0.1, EPSS[k % 3], [1, 2, 1, 3][(k + mi) % 4], v, GRAFTS[k % len(GRAFTS)]))
+    else:
+        for mode in MODES:
+            for v in VARIANTS:
+                for thr in THRS:
+                    for eps in EPSS:
+                        k = len(vgrid) + seed
+                        vgrid.append((mode, thr, eps, [1, 2, 1, 3][k % 4], v, GRAFTS[k % len(GRAFTS)]))
+    for gi, (mode, thr, eps, pi, v, graft) in enumerate(vgrid):
+        cid += 1
+        hs = []
+        vk = FAULTS + ["row0zero", "row0zero"]
+        for h in range(8 if quick else 10):
+            hs.append({"kinds": _history(rng, T, kinds=vk, p=[0.2, 0.35, 0.6][h % 3]), "target": rng.choice(["p0", "p0", "all", "p1"]),
+                       "gseed": seed * 1000003 + cid * 101 + h})
+        hs.append({"kinds": [rng.choice(["ok", "zero", "big", "small", "row0zero"]) for _ in range(T)], "target": "all", "gseed": seed * 7 + cid})
+        hs.append({"kinds": ["zero"] * 2 + ["ok"] * (T - 2), "target": "all", "gseed": seed * 11 + cid})
+        hs.append({"kinds": ["ok", "ok"] + [rng.choice(["nan", "pinf", "nan1", "huge"])] + ["ok"] * (T - 3), "target": "p0", "gseed": seed * 13 + cid})
+        hs.append({"kinds": ["ok", "row0zero", "row0zero", "ok"] + ["ok"] * (T - 4), "target": "all", "gseed": seed * 23 + cid})
+        hs.append({"kinds": ["rank1"] * 2 + ["ok"] * (T - 2), "target": "all", "gseed": seed * 29 + cid})
+        hs.append({"kinds": ["ok"] * T, "target": "all", "gseed": seed * 17 + cid})
+        tasks.append({"kind": "ds", "mode": mode, "thr": thr, "eps": eps, "eigh": False, "pi": pi, "T": T,
+                      "shapes": v["shapes"], "block": v["block"], "graft": graft, "variant": v["variant"],
+                      "ndev": [2, 3][cid % 2] if mode == "pmapq" else None,
                       "npjit": [1, 2, 3][cid % 3] if mode == "sharded" else None,
                       "defaults": False, "histories": hs})
     return tasks
@@ -187,10 +230,13 @@ def _grad(kind, shape, rs):
     if kind == "inf1":
         base.reshape(-1)[-1] = np.inf
         return base
+    if kind == "row0zero":
+        base[0] = 0.0          # e_1 lies in the null space of the left statistic (LOBPCG's fixed search direction, K6 of C01)
+        return base
     if kind == "rank1":
         n = int(np.prod(shape))
         if len(shape) == 2:
-            return np.outer(np.arange(1, shape[0] + 1), [1., -1., 2., 3., -2.][:shape[1]]).astype(np.float32)
+            return np.outer(np.arange(1, shape[0] + 1), ([1., -1., 2., 3., -2., 1.5, -0.5, 4.] * 2)[:shape[1]]).astype(np.float32)
         return np.arange(1, n + 1, dtype=np.float32).reshape(shape)
     raise ValueError(kind)
 
@@ -206,6 +252,13 @@ def _build(c):
               generate_training_metrics=True, graft_type=getattr(ds.GraftingType, c["graft"]))
     if not c.get("defaults"):
         kw.update(best_effort_shape_interpretation=False, beta2=1.0)
+    v = c.get("variant") or {}
+    if "lobpcg" in v:
+        kw.update(lobpcg_topk_precondition=v["lobpcg"])
+    if "rank" in v:
+        kw.update(compression_rank=v["rank"])
+    if "fd" in v:
+        kw.update(compression_rank=v["fd"], frequent_directions=True, reuse_preconditioner=True, statistics_compute_steps=c["pi"])
     mesh = None
     if mode == "replicated":
         kw.update(batch_axis_name=None)
@@ -248,14 +301,16 @@ def _view(c, state, names):
         loc = state.stats[n]
         errs = dev0(loc.training_metrics.inverse_pth_root_errors).reshape(-1)
         for k, (p, s) in enumerate(zip(loc.preconditioners, loc.statistics)):
-            if mode == "pmapq":
+            if mode == "pmapq" and hasattr(p, "quantized") and np.asarray(p.quantized).dtype.kind == "i":
                 q, d, b = dev0(p.quantized), dev0(p.diagonal), dev0(p.bucket_size)
                 dense = q.astype(np.float32) * b[np.newaxis, :] + np.diag(d)
                 sq, sd, sb = dev0(s.quantized), dev0(s.diagonal), dev0(s.bucket_size)
                 slots.append({"owner": n, "k": k, "P": [q, d, b], "S": [sq, sd, sb], "err": errs[k], "dense": dense,
                               "Sdense": sq.astype(np.float32) * sb[np.newaxis, :] + np.diag(sd)})
             else:
-                slots.append({"owner": n, "k": k, "P": [dev0(p)], "S": [dev0(s)], "err": errs[k], "dense": dev0(p), "Sdense": dev0(s)})
+                pp = dev0(p.quantized) if hasattr(p, "quantized") else dev0(p)
+                ss = dev0(s.quantized) if hasattr(s, "quantized") else dev0(s)
+                slots.append({"owner": n, "k": k, "P": [pp], "S": [ss], "err": errs[k], "dense": pp, "Sdense": ss})
     return int(dev0(state.count)), slots
 
 
@@ -346,6 +401,18 @@ def _run_config(c):
                     tag = f"step {t}: slot {si} ({b['owner']}[{b['k']}])"
                     if not fin:
                         fails.append(f"{tag}: stored preconditioner is not finite")
+                    # the "no refresh" sentinel (statistics slice, error = threshold) must never be stored: on a non-refresh step
+                    # the slot is not the raw statistics (unless the statistics are their own inverse root: idempotent, e.g. 0 or I)
+                    if not refresh and b["owner"] is not None:
+                        sent = all(x.shape[0] == y.shape[0] and np.array_equal(x, y[tuple(slice(0, d) for d in x.shape)])
+                                   for x, y in zip(b["P"], b["S"]))
+                        sd = np.asarray(b["Sdense"], np.float64)
+                        with np.errstate(all="ignore"):
+                            idem = bool(np.linalg.norm(sd @ sd - sd) <= 1e-3 * np.linalg.norm(sd)) if np.isfinite(sd).all() else False
+                        rec["sentinel_equal"] = bool(sent)
+                        if sent and not idem:
+                            fails.append(f"{tag}: non-refresh step ({t} % {c['pi']} != 0) but the stored preconditioner equals the raw "
+                                         "statistics slice (the efficient_cond sentinel was accepted)")
                     if not all(same):
                         if not refresh:
                             fails.append(f"{tag}: preconditioner changed on a non-refresh step ({t} % {c['pi']} != 0)")
@@ -383,9 +450,20 @@ def _np_checks(task):
     return [{"case": {"kind": "ieee"}, "arith": out, "blend": bl, "fails": []}]
 
 
+def _xla_flags():
+    """On a heavily loaded machine a device thread of a CPU pmap can be starved for longer than XLA's default 40 s collective
+    rendezvous limit, which aborts the worker process (infrastructure error, exit 2). Raise the limits before jax initialises."""
+    fl = os.environ.get("XLA_FLAGS", "")
+    if "xla_cpu_collective_call_terminate_timeout_seconds" not in fl:
+        os.environ["XLA_FLAGS"] = (fl + " --xla_cpu_collective_call_terminate_timeout_seconds=1800"
+                                   " --xla_cpu_collective_call_warn_stuck_timeout_seconds=600"
+                                   " --xla_cpu_collective_timeout_seconds=1800").strip()
+
+
 def worker(task):
     import warnings
     warnings.filterwarnings("ignore")
+    _xla_flags()
     try:
         if task["kind"] == "ds":
             return _run_config(task)
@@ -405,7 +483,17 @@ def worker(task):
 
 
 # ============================================================================ model requests / comparison
-MODEL_MODE = {"replicated": "replicated", "pmapq": "quantized", "sharded": "sharded"}
+def _model_mode(o):
+    """selector the model uses: three parallel selects only when the stored value really is a quantized triple
+    (compression_rank / frequent_directions disable second-moment quantization: pmap then takes the replicated gate)"""
+    c = o["case"]
+    if c["mode"] == "pmapq":
+        return "quantized" if len(o["steps"][0]["slots"][0]["same"]) == 3 else "replicated"
+    return c["mode"]
+
+
+def _reuse(c):
+    return bool((c.get("variant") or {}).get("fd"))
 
 
 def _hex32_fraction(h):
@@ -442,12 +530,12 @@ def model_requests(o):
     nslot = len(o["init_errs"])
     owned = [k for k in range(nslot) if o["init_errs"][k] is not None]
     # the whole state at once (`stateRun`: all slots driven by one counter) ...
-    reqs.append({"op": "state_trace", "mode": MODEL_MODE[c["mode"]], "thr": thr, "itv": c["pi"],
+    reqs.append({"op": "state_trace", "mode": _model_mode(o), "thr": thr, "itv": c["pi"], "reuse": _reuse(c),
                  "init_errs": [o["init_errs"][k] for k in owned],
                  "errs": [[st["slots"][k]["err"] for k in owned] for st in o["steps"]]})
     # ... and slot 0 alone through `slotStep` (the two must agree)
     if owned:
-        reqs.append({"op": "slot_trace", "mode": MODEL_MODE[c["mode"]], "thr": thr, "itv": c["pi"],
+        reqs.append({"op": "slot_trace", "mode": _model_mode(o), "thr": thr, "itv": c["pi"], "reuse": _reuse(c),
                      "init_err": o["init_errs"][owned[0]], "errs": [st["slots"][owned[0]]["err"] for st in o["steps"]]})
     # decoding of every observed error and of the threshold
     allb = sorted({st["slots"][k]["err"] for st in o["steps"] for k in range(nslot) if st["slots"][k]["err"] is not None} | {thr})
@@ -501,7 +589,8 @@ def compare(ctx, o, replies):
                 ctx.dist("blend.arith_differs_from_select")
         return
     mode = c["mode"]
-    pre = "gate." + mode
+    vkind = "".join(sorted((c.get("variant") or {}).keys()))
+    pre = "gate." + mode + ("." + vkind if vkind else "")
     nslot = len(o["init_errs"])
     owned = [k for k in range(nslot) if o["init_errs"][k] is not None]
     dec = replies[-1]
@@ -542,12 +631,12 @@ def compare(ctx, o, replies):
                     ctx.disagree(pre + ".kept_is_bitwise_equal", c, {"same": s["same"], "err": s["err"]}, "kept (all leaves bitwise equal)",
                                  f"step {t} slot {k} perform={m['perform']}")
                 if m["perform"]:
-                    ctx.nontrivial((mode, c["thr"], c["eps"], c["eigh"], c["pi"], "rejected", s["err"], t, k, tuple(c["kinds"][:t + 1])))
+                    ctx.nontrivial((mode, str(c.get("variant")), c["thr"], c["eps"], c["eigh"], c["pi"], "rejected", s["err"], t, k, tuple(c["kinds"][:t + 1])))
                     ctx.dist(pre + ".rejected." + m["err"]["cls"])
             else:
                 if not same:
                     ctx.corr(pre + ".replaced_is_bitwise_different", True)
-                    ctx.nontrivial((mode, c["thr"], c["eps"], c["eigh"], c["pi"], "replaced", s["err"], t, k, tuple(c["kinds"][:t + 1])))
+                    ctx.nontrivial((mode, str(c.get("variant")), c["thr"], c["eps"], c["eigh"], c["pi"], "replaced", s["err"], t, k, tuple(c["kinds"][:t + 1])))
                     if mode == "pmapq" and not all(not x for x in s["same"]):
                         ctx.dist(pre + ".replaced.some_leaf_bit_equal")
                 elif only_ok and kind == "ok" and s["stats_finite"] and s["srel"] == s["srel"] and s["srel"] >= 0.05:
@@ -634,6 +723,8 @@ def execute(ctx, tasks):
             ctx.dist(f"eps.{c['eps']}")
             ctx.dist("root." + ("eigh" if c["eigh"] else "newton"))
             ctx.dist(f"interval.{c['pi']}")
+            ctx.dist("variant." + (",".join(f"{k2}={v2}" for k2, v2 in (c.get("variant") or {}).items()) or "plain"))
+            ctx.dist("sentinel_checked_steps", sum(1 for st in o["steps"] for sl in st["slots"] if "sentinel_equal" in sl))
             nmod = sum(1 for st in o["steps"] if st["moderate"])
             ctx.dist("update_finite_clause_steps", nmod)
             ctx.dist("unowned_padding_slots", sum(1 for e in o["init_errs"] if e is None))
